@@ -22,6 +22,9 @@ type NilFunc struct{}
 type StrV struct {
 	S string
 	B []*Term
+	// Tok, when set, says the whole string is an injective rendering of
+	// this term: two such strings are equal exactly when the terms are
+	Tok *Term
 }
 
 type Iface struct {
@@ -131,6 +134,9 @@ func (s StrV) String() string {
 }
 
 func strEq(a, b StrV) *Term {
+	if a.Tok != nil && b.Tok != nil && a.Tok.S == b.Tok.S && a.Len() == b.Len() {
+		return Eq(a.Tok, b.Tok)
+	}
 	if a.Len() != b.Len() {
 		return TFalse
 	}
